@@ -27,6 +27,7 @@ type Obs struct {
 	Vis []Run  `json:"vis"` // visible words of Result.Node including embed placeholders, canonical runs
 	Vnp []Run  `json:"vnp"` // visible words of Result.Node outside embed placeholders, canonical runs
 	Ph  []Run  `json:"ph"`  // words inside embed placeholders
+	Phc []HRun `json:"phc"` // the visible words inside embed placeholders with their chains (a tweet is a quote)
 	Hid []Run  `json:"hid"` // words under hidden elements of the output
 	Cmt []Run  `json:"cmt"` // words inside comment nodes of the output
 
@@ -170,6 +171,7 @@ func (p *projector) walk(n *html.Node, chain string, inPh, hid, inTbl bool) {
 			p.obs.Ph = p.appendWords(p.obs.Ph, n.Data)
 		case inPh:
 			p.obs.Ph = p.appendWords(p.obs.Ph, n.Data)
+			p.obs.Phc = p.appendHWords(p.obs.Phc, n.Data, p.chains.id(chain), inTbl)
 			p.obs.Vis = p.appendWords(p.obs.Vis, n.Data)
 		case hid:
 			p.obs.Hid = p.appendWords(p.obs.Hid, n.Data)
@@ -186,7 +188,7 @@ func (p *projector) walk(n *html.Node, chain string, inPh, hid, inTbl bool) {
 		if outHidden(n) {
 			hid = true
 		}
-		if nestTags[n.Data] && !inPh {
+		if nestTags[n.Data] {
 			chain += "/" + n.Data
 		}
 		if n.Data == "table" {
@@ -396,7 +398,7 @@ func digestResult(res *distiller.Result) map[string]string {
 // project builds the observation of a call. src may be nil (families that do not
 // use the token abstraction).
 func project(res *distiller.Result, err error, src *Src, chains, urls *interner) *Obs {
-	o := &Obs{Txt: []Run{}, Htm: []HRun{}, Vis: []Run{}, Vnp: []Run{}, Ph: []Run{}, Hid: []Run{}, Cmt: []Run{},
+	o := &Obs{Txt: []Run{}, Htm: []HRun{}, Vis: []Run{}, Vnp: []Run{}, Ph: []Run{}, Phc: []HRun{}, Hid: []Run{}, Cmt: []Run{},
 		MediaKept: []bool{}, CI: []int{}, DomImg: []int{}, Placeholders: [][]string{},
 		Census: map[string]int{}, Dig: map[string]string{}}
 	if err != nil || res == nil {
